@@ -26,8 +26,8 @@ META = dict(
                "(3) on every other text an instruction is flagged — the first offending one; later independent offenders "
                "are not claimed (bad_indentation_flagged, flagged_iff_incorrect). Judged from the TEXT (indentation = "
                "leading white space of the line, srcInfos): the law holds on every text all of whose lines are blank, "
-               "comments or match the instruction pattern (C17_partial), and on every text with "
-               "fixes/C17-error-line-keeps-indentation.diff (text_law_repaired). "
+               "comments or match the instruction pattern (C17_partial), and on every text for the line parser as "
+               "repaired in /repo (4ad2b33e; text_law_repaired). "
                "The model is tied to PcodeParser by differential execution on whole texts (structured, exhaustive "
                "small scope, arbitrary unicode).",
     level_note="The text-level law holds for the parser as repaired in /repo (text_law_repaired; fix 4ad2b33e: an "
@@ -143,7 +143,10 @@ def gen_unicode(rng: random.Random, max_lines: int) -> dict:
     parts = []
     for _ in range(rng.randint(0, max_lines)):
         r = rng.random()
-        if r < 0.55:
+        if r < 0.08:   # conditions that repeat their operator (ill-formed; parsing must still not fail)
+            parts.append(" " * rng.choice([0, 4]) + rng.choice(["Watch", "Alarm", "Simulate"]) + ": "
+                         + rng.choice(pc.REPEATED_OP))
+        elif r < 0.55:
             parts.append(pc.rand_unicode_line(rng, 10))
         elif r < 0.7:
             parts.append(pc.rand_ws_line(rng, rng.choice([0, 4, 8])))
@@ -199,7 +202,8 @@ def oracle(case: dict) -> Failure | None:
     try:
         method, prog = pc.parse_text(text, custom_ids=case.get("ids") == "custom")
     except Exception as e:
-        return Failure("parse-raises", case, f"parsing raised {type(e).__name__}: {e}")
+        return Failure(f"parse-raises:{type(e).__name__}", case,
+                       f"parsing the method raised {type(e).__name__}: {e} — parsing must never fail")
     nodes = pc.preorder(prog)
     ids = [n.id for n, _ in nodes]
     want = [ln.id for ln in method.lines]
@@ -271,7 +275,10 @@ def text_op(case: dict, fx_indent: str = "1", fe: str | None = None) -> list[str
 
 
 def _shape(ctx: Check, case: dict) -> None:
+    from harness.parse_common import REPEATED_OP
     meta = case.get("meta")
+    if any(": " + r in case["text"] for r in REPEATED_OP):
+        ctx.count("has_condition_repeating_its_operator")
     if meta is None:
         ctx.count("unicode_text")
         return
